@@ -463,7 +463,8 @@ struct DropRec {
 fn apply_shared(world: &Arc<Mutex<World>>, op: Op, drops: Option<&Mutex<Vec<(usize, DropRec)>>>, force_begin: Option<&AtomicU64>) {
     let mut rec: Option<(usize, DropRec)> = None;
     let doomed = {
-        let mut w = world.lock().unwrap();
+        let mut w = world.lock().unwrap_or_else(|e| e.into_inner());
+        c06::set_no_park(true);
         let d = w.take_doomed(op);
         if d.is_some() {
             if let Op::DropGuard(i) = op {
@@ -475,6 +476,7 @@ fn apply_shared(world: &Arc<Mutex<World>>, op: Op, drops: Option<&Mutex<Vec<(usi
         } else {
             w.apply_nondrop(op);
         }
+        c06::set_no_park(false);
         d
     };
     drop(doomed);
@@ -489,7 +491,9 @@ fn exec_threads(setup: &[Op], prog: &[(usize, Op)], choose: &mut dyn FnMut(&[usi
     let nthreads = prog.iter().map(|(t, _)| *t + 1).max().unwrap_or(0);
     let mut w = World::new(None);
     for &op in setup {
-        w.apply(op);
+        if std::panic::catch_unwind(std::panic::AssertUnwindSafe(|| w.apply(op))).is_err() {
+            w.panicked = true;
+        }
     }
     let sink = w.sink.clone();
     let world = Arc::new(Mutex::new(w));
@@ -512,7 +516,7 @@ fn exec_threads(setup: &[Op], prog: &[(usize, Op)], choose: &mut dyn FnMut(&[usi
     }
     let tids: Vec<usize> = trace.iter().map(|(t, _)| *t).collect();
     let (rets, panicked) = {
-        let w = world.lock().unwrap();
+        let w = world.lock().unwrap_or_else(|e| e.into_inner());
         (w.rets.clone(), w.panicked)
     };
     let out = Sx::L(vec![Sx::L(obs), Sx::L(rets.iter().map(|r| r.enc()).collect()), Sx::L(recs.iter().map(|r| r.enc()).collect()),
@@ -523,7 +527,7 @@ fn exec_threads(setup: &[Op], prog: &[(usize, Op)], choose: &mut dyn FnMut(&[usi
 
 fn cleanup(world: Arc<Mutex<World>>) {
     let _ = std::panic::catch_unwind(std::panic::AssertUnwindSafe(move || {
-        let mut w = world.lock().unwrap();
+        let mut w = world.lock().unwrap_or_else(|e| e.into_inner());
         w.waiting = None;
         for g in w.guards.iter_mut() { *g = None; }
         w.owners.clear();
@@ -606,9 +610,12 @@ fn exec_stress(setup: &[Op], prog: &[(usize, Op)], seed: u64) -> Result<(), Stri
     drop(w);
     let world = world_tmp;
     for &op in setup {
-        apply_shared(&world, op, Some(&drops), Some(&force_begin));
+        if std::panic::catch_unwind(std::panic::AssertUnwindSafe(|| apply_shared(&world, op, Some(&drops), Some(&force_begin)))).is_err() {
+            c06::set_no_park(false);
+            return Err("an action of the sequential prefix panicked".to_string());
+        }
     }
-    let sink = world.lock().unwrap().sink.clone();
+    let sink = world.lock().unwrap_or_else(|e| e.into_inner()).sink.clone();
     let barrier = Arc::new(std::sync::Barrier::new(nthreads));
     let mut joins = vec![];
     for tid in 0..nthreads {
@@ -628,24 +635,34 @@ fn exec_stress(setup: &[Op], prog: &[(usize, Op)], seed: u64) -> Result<(), Stri
         j.join().map_err(|_| "a thread panicked".to_string())?;
     }
     // drop what is left: the pending future, the guards (in slot order), then owners and keep-alive guards
-    world.lock().unwrap().waiting = None;
+    let w3 = world.clone();
+    let (d3, f3) = (drops.clone(), force_begin.clone());
+    let cleanup_ok = std::panic::catch_unwind(std::panic::AssertUnwindSafe(move || {
+        let world = w3;
+        let (drops, force_begin) = (d3, f3);
+    world.lock().unwrap_or_else(|e| e.into_inner()).waiting = None;
     for i in 0..NSLOTS {
         apply_shared(&world, Op::DropGuard(i), Some(&drops), Some(&force_begin));
     }
     loop {
-        let more = { let w = world.lock().unwrap(); !w.owners.is_empty() };
+        let more = { let w = world.lock().unwrap_or_else(|e| e.into_inner()); !w.owners.is_empty() };
         if !more { break; }
         apply_shared(&world, Op::K(KOp::DropOwner(0)), Some(&drops), Some(&force_begin));
     }
     loop {
-        let more = { let w = world.lock().unwrap(); !w.fgs.is_empty() };
+        let more = { let w = world.lock().unwrap_or_else(|e| e.into_inner()); !w.fgs.is_empty() };
         if !more { break; }
         apply_shared(&world, Op::K(KOp::DropFlush(0)), Some(&drops), Some(&force_begin));
     }
     loop {
-        let more = { let w = world.lock().unwrap(); !w.ffs.is_empty() };
+        let more = { let w = world.lock().unwrap_or_else(|e| e.into_inner()); !w.ffs.is_empty() };
         if !more { break; }
         apply_shared(&world, Op::K(KOp::DropForce(0)), Some(&drops), Some(&force_begin));
+    }
+    })).is_ok();
+    if !cleanup_ok {
+        c06::set_no_park(false);
+        return Err("dropping the remaining objects panicked".to_string());
     }
     let recs = sink.records.lock().unwrap().clone();
     if recs.len() != 1 {
@@ -654,7 +671,7 @@ fn exec_stress(setup: &[Op], prog: &[(usize, Op)], seed: u64) -> Result<(), Stri
     let r = &recs[0];
     let mut got = r.log.clone();
     got.sort();
-    let mut want = world.lock().unwrap().applied_muts.clone();
+    let mut want = world.lock().unwrap_or_else(|e| e.into_inner()).applied_muts.clone();
     want.sort();
     if got != want {
         return Err(format!("the entry's own fields {:?} differ from the mutations made {:?}", got, want));
@@ -954,7 +971,7 @@ fn count_ops(out: &mut Out, ops: &[Op]) {
 }
 
 pub fn run(ctx: &Ctx) {
-    crate::common::quiet_panics();
+    if std::env::var("MV_LOUD").is_err() { crate::common::quiet_panics(); }
     let mut out = Out::new(ctx, "");
     let emit = |out: &mut Out, case: Sx| {
         let (imp, nt) = exec(&case);
